@@ -1,7 +1,11 @@
 package c11
 
 import (
+	"context"
+	"encoding/json"
 	"fmt"
+	"os"
+	"os/exec"
 	"reflect"
 	"regexp"
 	"runtime/debug"
@@ -26,6 +30,7 @@ type parseOut struct {
 	panic any
 	stack string
 	hang  bool
+	fatal string // the parsing process died (fatal runtime error); only observable through parseChild
 	took  time.Duration
 }
 
@@ -54,6 +59,65 @@ func parseWD(sql string) parseOut {
 	}
 }
 
+// childThreshold: inputs longer than this are parsed in a child process. A fatal runtime error (stack
+// exhaustion by unbounded recursion) cannot be recovered in-process and would take the whole run down;
+// below this length no nesting the parser can build reaches the runtime's stack limit.
+const childThreshold = 100000
+
+// parseChild parses sql in a child process (this test binary, TestChildParse) and reports how it ended.
+func parseChild(sql string) parseOut {
+	start := time.Now()
+	f, err := os.CreateTemp("", "c11-child-*.sql")
+	if err != nil {
+		return parseWD(sql)
+	}
+	defer os.Remove(f.Name())
+	f.WriteString(sql)
+	f.Close()
+	ctx, cancel := context.WithTimeout(context.Background(), 120*time.Second)
+	defer cancel()
+	cmd := exec.CommandContext(ctx, os.Args[0], "-test.run=^TestChildParse$", "-test.v")
+	cmd.Env = append(os.Environ(), "C11_CHILD_INPUT="+f.Name())
+	out, runErr := cmd.CombinedOutput()
+	o := parseOut{took: time.Since(start)}
+	text := string(out)
+	switch {
+	case strings.Contains(text, "C11CHILD ok"):
+		if strings.Contains(text, "C11CHILD ok err=true") {
+			o.err = fmt.Errorf("rejected (child process)")
+		}
+		if strings.Contains(text, "cfg=true") {
+			o.cfg = &types.Config{}
+		}
+	case strings.Contains(text, "C11CHILD panic"):
+		i := strings.Index(text, "C11CHILD panic")
+		o.panic = strings.TrimSpace(text[i:min(len(text), i+300)])
+	case ctx.Err() != nil:
+		o.hang = true
+	default:
+		// the process died: keep the runtime's own first lines
+		lines := strings.Split(text, "\n")
+		var keep []string
+		for _, l := range lines {
+			if strings.HasPrefix(l, "runtime:") || strings.HasPrefix(l, "fatal error:") || strings.HasPrefix(l, "signal") {
+				keep = append(keep, l)
+			}
+			if strings.Contains(l, "streamsql/rsql.") && len(keep) < 8 {
+				keep = append(keep, strings.TrimSpace(l))
+			}
+		}
+		o.fatal = fmt.Sprintf("%v: %s", runErr, strings.Join(keep, " | "))
+	}
+	return o
+}
+
+func parseAny(sql string) parseOut {
+	if len(sql) > childThreshold {
+		return parseChild(sql)
+	}
+	return parseWD(sql)
+}
+
 func short(s string) string {
 	if len(s) > 400 {
 		return fmt.Sprintf("%q...(%d bytes)", s[:400], len(s))
@@ -64,6 +128,9 @@ func short(s string) string {
 // totality adds the discrepancies of one parse outcome and reports whether the outcome is usable.
 func totality(res *pbt.Result, sql string, o parseOut) bool {
 	switch {
+	case o.fatal != "":
+		res.Add(pbt.D("fatal-crash", "rsql.Parse killed the process (not a recoverable panic): %s; input %s", o.fatal, short(sql)))
+		return false
 	case o.hang:
 		res.Add(pbt.D("hang", "rsql.Parse did not return within %v for %s", pbt.Wait(watchdog), short(sql)))
 		return false
@@ -384,6 +451,9 @@ func faithful(res *pbt.Result, s *Stmt, sql string, cfg *types.Config, cond stri
 			want = []string{"*"}
 		} else {
 			for _, it := range s.Items {
+				if it.Kind == "analytic" {
+					continue // analytic functions are evaluated by the stream-level state machine
+				}
 				x := plain(it.Expr)
 				if it.Alias != "" {
 					x += ":" + it.Alias
@@ -406,6 +476,40 @@ func faithful(res *pbt.Result, s *Stmt, sql string, cfg *types.Config, cond stri
 			}
 			bad(kind, "SimpleFields", fmt.Sprintf("%q", got), fmt.Sprintf("%q", want))
 		}
+	}
+	// analytic items: function, alias, argument, OVER (PARTITION BY .. WHEN ..)
+	var ai int
+	for _, it := range s.Items {
+		if it.Kind != "analytic" {
+			continue
+		}
+		if ai >= len(cfg.AnalyticFields) {
+			bad("analytic", "AnalyticFields length", len(cfg.AnalyticFields), "more items")
+			break
+		}
+		af := cfg.AnalyticFields[ai]
+		ai++
+		wantArg := it.Expr[2].S
+		if !strings.EqualFold(af.FuncName, it.Expr[0].S) || af.Alias != it.Alias || len(af.Args) != 1 || stripWS(af.Args[0]) != wantArg {
+			bad("analytic", "AnalyticField", fmt.Sprintf("%s(%q) AS %q", af.FuncName, af.Args, af.Alias), fmt.Sprintf("%s(%s) AS %q", it.Expr[0].S, wantArg, it.Alias))
+		}
+		switch {
+		case it.Over == nil && af.Over != nil:
+			bad("analytic-over", "AnalyticField.Over", fmt.Sprintf("%+v", *af.Over), "none")
+		case it.Over != nil && af.Over == nil:
+			bad("analytic-over", "AnalyticField.Over", "none", fmt.Sprintf("%+v", *it.Over))
+		case it.Over != nil:
+			var wp []string
+			for _, x := range it.Over.Partition {
+				wp = append(wp, unbt(x))
+			}
+			if !eqStrs(af.Over.PartitionBy, wp) || stripWS(af.Over.When) != condText(it.Over.When) {
+				bad("analytic-over", "AnalyticField.Over", fmt.Sprintf("partition=%q when=%q", af.Over.PartitionBy, stripWS(af.Over.When)), fmt.Sprintf("partition=%q when=%q", wp, condText(it.Over.When)))
+			}
+		}
+	}
+	if ai != len(cfg.AnalyticFields) {
+		bad("analytic", "AnalyticFields length", len(cfg.AnalyticFields), ai)
 	}
 	// mode
 	wantMode := types.ExecDirect
@@ -563,7 +667,9 @@ func layoutDiff(res *pbt.Result, s *Stmt, sqlA, sqlB string, a, b parseOut) {
 			if name == "orderby" && s.MR != nil {
 				kind = "layout-orderby-mr"
 			}
-			res.Add(pbt.D(kind, "same tokens, different layout: Config.%s differs: %+v vs %+v; A=%s B=%s", tp.Field(i).Name, fa, fb, short(sqlA), short(sqlB)))
+			ja, _ := json.Marshal(fa)
+			jb, _ := json.Marshal(fb)
+			res.Add(pbt.D(kind, "same tokens, different layout: Config.%s differs: %s vs %s; A=%s B=%s", tp.Field(i).Name, ja, jb, short(sqlA), short(sqlB)))
 		}
 	}
 }
